@@ -427,9 +427,12 @@ class Schema(dict, metaclass=LogicalMeta):
                 f"{self.__name__}: Attempt to delete required schema key: {repr(key)}"
             )
         args = () if unprovided(default) else (default,)
-        # the attribute goes with the key
-        self.__dict__.pop(field.attname, None)
-        return super().pop(field.name, *args)
+        present = super().__contains__(field.name)
+        result = super().pop(field.name, *args)
+        if present:
+            # the attribute goes with the key
+            self.__dict__.pop(field.attname, None)
+        return result
 
     def popitem(self):
         if self.__options__.immutable:
